@@ -132,6 +132,27 @@ CHECKS = {
         note='Trusted: TLC; byte-level fidelity of arbitrary strings is outside the specification (finite tables only); fresh process '
              'is simulated by clearing the TAGS/STATES/ARTIFACTS caches.',
         design='6/C18'),
+    'C04': dict(
+        technique='TLC exhaustive over lifecycle histories (Lifecycle.tla: generations, incremental training of persistent actors, '
+                  'Gen(term, g)) for ten pipelines; sampled histories replayed on a real posix registry + project package through '
+                  'the real Runner.train/apply/eval_perftrack and pyfunc serving, fresh expansion / fresh interpreter per action',
+        text='Lifecycle.tla defines which state every actor must receive when generation g is loaded in any mode (its own state of '
+             'that generation, built on its own previous state; non-persistent actors from scratch) and checks the Distinct/OwnChain '
+             'lemmas; each exported history is replayed with real registry, package, project components, compiler and runners, and '
+             'the terms observed by the symbolic actors must equal TLC\'s.',
+        note='Trusted: TLC, symbolic actors, the symbolic source in place of the feed layer. A perftrack composition that is refused '
+             'with TopologyError (fan-out/fan-in pipelines) is not judged. The as-is traversal-order model (OperatorsImpl) is not built.',
+        design='6/C04'),
+    'C09': dict(
+        technique='TLC exhaustive over statements x advertised source sets x feed pools (Importer.tla requirement, ImporterImpl.tla '
+                  'as-is Matcher/bypass) with every pool replayed on real io.Importer + alchemy parsers; random pools validated by '
+                  'TraceImporter.tla',
+        text='Importer.tla defines Covers / Resolvable and the selection clauses (highest priority covering feed, MissingError only '
+             'if none, the selected feed parses, a passed-over feed could not); all (statement, advertised set) pairs and pools within '
+             'the constants are replayed on real feeds; the as-is model predicts every real outcome (drift 0).',
+        note='Trusted: TLC, harness.dslgen; statements with two-origin and/or predicates are excluded (they crash the parser for '
+             'reasons owned by C06/C14).',
+        design='6/C09'),
 }
 
 NOT_YET = {}
